@@ -80,11 +80,11 @@ PROPS = {
                        "from_str (i128 overflow, scale overflow, indexing, loop termination: all string lengths), insert_price / insert_impl and check_balance (Decimal division by zero), posting_price_event "
                        "(unreachable! turned into an obligation), add_transaction (indexing postings[u]), the amount/balance kernels (unwrap/expect reachability), the two debug_assert!s of InternStore as obligations; "
                        "Kani (bounded, unwinding assertions on): ParseError::new terminates and stays in range for every failure offset including end of input, compute_line_number's assert precondition, clip has "
-                       "no underflow (complete), Display for PrettyDecimal does not panic (|mantissa| < 10^7, scale <= 3).  NOT decided: totality of the winnow parser on arbitrary text, include cycles, the CLI main.",
+                       "no underflow (complete), Display for PrettyDecimal does not panic (i16 mantissa, scale <= 2).  NOT decided: totality of the winnow parser on arbitrary text, include cycles, the CLI main.",
         "units_doc": ["see C01, C02, C03, C07, C12 units", "core/src/parse/error.rs: ParseError::new, compute_line_number (Kani)", "core/src/parse/adaptor.rs: clip (Kani)", "core/src/syntax/pretty_decimal.rs: Display (Kani, bounded)"],
         "assumptions": [L0_DECIMAL, L0_HANDLES, L0_STD, L1_AMOUNT, L1_BOOK, STUBS, "overflow panics of Decimal + - * are outside C06 by its own 'representable range' clause",
                         "Kani: ASCII text <= 6 bytes over {LF, CR, space, a, ;}"],
-        "bounded": ["parse_error_new_bounded (text <= 6 bytes)", "compute_line_number_bounded (text <= 6 bytes)", "display_roundtrip_bounded (|m| < 10^7, scale <= 3)"],
+        "bounded": ["parse_error_new_bounded (text <= 6 bytes)", "compute_line_number_bounded (text <= 6 bytes)", "display_roundtrip_bounded (i16 mantissa, scale <= 2)"],
         "not_decided": ["winnow parser totality on arbitrary text", "self-including files (load_impl recursion has no measure)", "cli main error mapping"],
         "unwind_is_violation": ["parse_error_new_bounded"],
     },
@@ -173,14 +173,14 @@ PROPS = {
         "kani": {"quick": [], "thorough": ["to_double_entry_signs"]},
         "explanation": "PARTIAL.  Verus proves the sign clauses on the real functions: FieldMap::amount books a non-empty credit column as +credit, otherwise a non-empty debit column as -debit, neither as an error, and an "
                        "`amount` column as +amount for an asset and -amount for a liability account; amount_with_sign gives the secondary amount the requested sign and keeps its magnitude and commodity; Neg for "
-                       "OwnedAmount/BorrowedAmount negates the value only.  Thorough tier (Kani on the real okane crate, one symbolic record): Txn::to_double_entry puts +amount (with the balance assertion) on the "
+                       "OwnedAmount/BorrowedAmount negates the value only; the statement that orders the rows at the end of csv::import (sliced out) keeps an oldest-first statement and reverses a newest-first one.  Thorough tier (Kani on the real okane crate, one symbolic record): Txn::to_double_entry puts +amount (with the balance assertion) on the "
                        "configured account first for a positive row and last for a negative one, the counter posting carries the opposite amount or the secondary amount with the opposite sign, Income:/Expenses:Unknown "
-                       "by direction and pending unless an account was assigned.  NOT decided: row order, column mapping/templates, conversion-rate orientation inside csv::import, acceptance by book-keeping.",
+                       "by direction and pending unless an account was assigned.  NOT decided: column mapping/templates, conversion-rate orientation inside csv::import, acceptance by book-keeping.",
         "units_doc": ["cli/src/import/csv.rs: FieldMap::amount", "cli/src/import/single_entry.rs: amount_with_sign (Verus), Txn::to_double_entry (Kani, thorough)", "cli/src/import/amount.rs: Neg impls, AmountRef::into_borrowed"],
         "assumptions": [L0_DECIMAL, "assumed (L1): FieldMap::resolve returns the configured column/template text; str_to_comma_decimal returns None for an empty string, else the number written or an error (it is PrettyDecimal::from_str, C07)",
                         "stand-ins for csv::StringRecord, Template, ImportError (vx/prelude/csv_stub.rs)", "Kani harness: RandomState::new stubbed with fixed keys (rates table stays empty)"],
         "bounded": ["to_double_entry_signs: one record, i64 mantissa, scale <= 4, no charges, no rates"],
-        "not_decided": ["csv::import row loop (csv crate, regex, HashMap): row_order reversal, conversion block, templates", "that okane's book-keeping accepts the result"],
+        "not_decided": ["csv::import row loop (csv crate, regex, HashMap): conversion block, templates", "that okane's book-keeping accepts the result"],
     },
     "C17": {
         "level": "other",
